@@ -197,6 +197,13 @@ pub async fn build_twin_v(seed: u64, r: &mut R, with_venue: bool) -> (World, Twi
         let st = marginfi::instructions::StakedSettingsConfig { oracle: sol_oracle, asset_weight_init: wi(0.8), asset_weight_maint: wi(0.9), deposit_limit: u64::MAX, total_asset_value_init_limit: 0, oracle_max_age: 600, risk_tier: RiskTier::Collateral };
         let i = ix::init_staked_settings(w.groups[g0].key, admin.pubkey(), p, st);
         assert!(w.raw_send(&[i], &[&admin]).await.ok(), "staked settings");
+        {
+            // the other group has staked settings of its own (substitution target)
+            let admin1 = clone_kp(&w.groups[g1].admin);
+            let st1 = marginfi::instructions::StakedSettingsConfig { oracle: sol_oracle, asset_weight_init: wi(0.5), asset_weight_maint: wi(0.6), deposit_limit: u64::MAX, total_asset_value_init_limit: 0, oracle_max_age: 600, risk_tier: RiskTier::Collateral };
+            let i = ix::init_staked_settings(w.groups[g1].key, admin1.pubkey(), p, st1);
+            assert!(w.raw_send(&[i], &[&admin1]).await.ok(), "staked settings of the other group");
+        }
         let s0 = w.add_staked_bank(g0, sol_oracle, 101_000_000_000, 0).await.expect("staked bank");
         let s0b = w.add_staked_bank(g0, sol_oracle, 404_000_000_000, 0).await.expect("second staked bank");
         let k = w.auth_of(acct0);
@@ -452,6 +459,11 @@ pub async fn cases(w: &mut World, t: &Twin) -> Vec<Case> {
         let s = role("admin");
         let ok = w.banks[t.a0].oracle.accounts()[0];
         v.push(Case { name: "configure_bank_oracle".into(), ixs: vec![ix::configure_bank_oracle(g0k, s.pubkey(), a0, 3, ok, vec![ix::ro(ok)])], target: 0, signer_key: Some(s.pubkey()), signers: vec![s], entitled: vec!["admin"], subs: bank_admin_subs(0, 2) });
+        if t.staked.is_some() {
+            let s = role("admin");
+            let e = marginfi::instructions::StakedSettingsEditConfig { oracle: None, asset_weight_init: None, asset_weight_maint: None, deposit_limit: Some(u64::MAX - 7), total_asset_value_init_limit: None, oracle_max_age: None, risk_tier: None };
+            v.push(Case { name: "edit_staked_settings".into(), ixs: vec![ix::edit_staked_settings(g0k, s.pubkey(), e)], target: 0, signer_key: Some(s.pubkey()), signers: vec![s], entitled: vec!["admin"], subs: vec![(0, "group->foreign group".into(), g1k), (2, "staked settings->foreign group's settings".into(), ix::staked_settings_key(&g1k))] });
+        }
         let s = role("risk");
         v.push(Case { name: "force_tokenless_repay_complete".into(), ixs: vec![ix::force_tokenless_complete(g0k, s.pubkey(), a0)], target: 0, signer_key: Some(s.pubkey()), signers: vec![s], entitled: vec!["risk"], subs: bank_admin_subs(0, 2) });
         let s = role("admin");
@@ -537,6 +549,7 @@ pub async fn run_c08(w: &mut World, m: &mut Mon, r: &mut R, t: &Twin) {
     let ids = Admin::identities(w, t.g0);
     let (px_a0, px_a1) = (save_price(w, t.a0), save_price(w, t.a1));
     let px_v = t.venue.map(|vb| (save_price(w, vb[0]), save_price(w, vb[2]), save_price(w, vb[4])));
+    let foreign_ids: Vec<(&'static str, Keypair)> = Admin::identities(w, t.g1).into_iter().take(7).collect();
     let mut all_ids: Vec<(&'static str, Keypair)> = ids;
     all_ids.push(("authority", w.auth_of(t.acct0)));
     all_ids.push(("liquidator", w.auth_of(t.liquidator0)));
@@ -639,6 +652,30 @@ pub async fn run_c08(w: &mut World, m: &mut Mon, r: &mut R, t: &Twin) {
             if o.ok() {
                 m.r.violate("C08", &format!("C08/matrix/{}/accepted-with-substitution/{}", c.name, what), format!("slot {} {} -> {}", slot, orig, repl));
             }
+            // the foreign group together with its own role holders: the remaining accounts (bank,
+            // settings, user account) still belong to this group, so nobody of that group is entitled
+            if what == "group->foreign group" && c.subs.len() > 1 {
+                if let Some(sk) = c.signer_key {
+                    for (idn, kp) in foreign_ids.iter() {
+                        let mut ixs2 = ixs.clone();
+                        for ixn in ixs2.iter_mut() {
+                            for mt in ixn.accounts.iter_mut() {
+                                if mt.pubkey == sk && mt.is_signer {
+                                    mt.pubkey = kp.pubkey();
+                                }
+                            }
+                        }
+                        let mut sg2: Vec<&Keypair> = c.signers.iter().filter(|k| k.pubkey() != sk).collect();
+                        sg2.push(kp);
+                        let o = w.probe(m, &ixs2, &sg2).await;
+                        m.r.eval();
+                        m.r.count("C08.matrix_foreign_group_with_its_role_holder_cells");
+                        if o.ok() {
+                            m.r.violate("C08", &format!("C08/matrix/{}/accepted-for-foreign-group-signed-by-its-{}", c.name, idn), format!("group {} -> {} signed by that group's {}", orig, repl, idn));
+                        }
+                    }
+                }
+            }
         }
         m.r.sample_kind("matrix-case", json!({"instruction": c.name, "signer_cells": all_ids.len(), "substitutions": c.subs.iter().map(|s| s.1.clone()).collect::<Vec<_>>()}));
       }
@@ -729,6 +766,19 @@ pub async fn run_c08(w: &mut World, m: &mut Mon, r: &mut R, t: &Twin) {
         m.r.eval();
         if o2.ok() {
             m.r.violate("C08", "C08/matrix/stranger-withdraw-after-unclosed-receivership-accepted", "a withdraw signed by a stranger succeeded in a transaction without a receivership bracket".into());
+        }
+        // a bracket that seizes and repays nothing must close like any other
+        let ixs = vec![ix::start_liquidation(va, lk.pubkey(), w.risk_metas(t.acct0, None, None)), ix::end_liquidation(va, lk.pubkey(), fw, w.risk_metas(t.acct0, None, None))];
+        let o = w.exec(m, &ixs, &[&lk]).await;
+        m.r.eval();
+        m.r.count(if o.ok() { "C08.empty_bracket_committed" } else { "C08.empty_bracket_rejected" });
+        let mut rem = w.mint_prefix(t.a0);
+        rem.extend(w.risk_metas(t.acct0, None, None));
+        let i = ix::withdraw(g0k, va, stranger.pubkey(), w.banks[t.a0].key, sta, w.token_program_of_bank(t.a0), 1000, None, rem);
+        let o3 = w.exec(m, &[i], &[&stranger]).await;
+        m.r.eval();
+        if o3.ok() {
+            m.r.violate("C08", "C08/matrix/stranger-withdraw-after-empty-receivership-bracket-accepted", "a withdraw signed by a stranger succeeded after a bracket that seized and repaid nothing had ended".into());
         }
         restore_price(w, t.a0, px_a0);
         restore_price(w, t.a1, px_a1);
